@@ -46,6 +46,18 @@ CHECKS = {
         technique="property-based testing (proptest) against a small reference model (equal iff same unit and amount; None / panic across units)",
         text="Random search over the types without reference unit x unit pairs x amount pairs (equal amounts over-represented); panics are observed with catch_unwind.",
         design="4/C10"),
+    "C13": dict(
+        technique="property-based testing (proptest) against the exact rational rate formulas and inverse / reciprocal relations",
+        text="Random search with shrinking over 10 representative (term, per) type pairs x rate components x operands in any unit; components bit-exact, products and quotients against exact rationals with the rounding budget, inverse relations within propagated budgets.",
+        design="4/C13"),
+    "C14": dict(
+        technique="property-based testing (proptest): random conversion tables against a first-match model; temperature table against exact physical formulas, inverse and composition relations",
+        text="Random tables (0-8 entries, duplicates and gaps frequent) over three host types dispatch through the const-generic table; the temperature table is checked on all nine unit pairs with landmark and random temperatures.",
+        design="4/C14"),
+    "C15": dict(
+        technique="property-based testing (proptest) over a grid of 208 format strings x runtime width/precision against an independent renderer (exact decimal expansion), parse-back round trip, differential against std for units",
+        text="Random search over types x units x amount classes x format specifications; the expected text is produced by an independent renderer built on exact rational arithmetic and std's documented padding rules. Found the negative-zero and byte-width defects repaired by /repo commits da6d46f and 2c38c02.",
+        design="4/C15"),
     "C16": dict(
         technique="exhaustive enumeration (25 prefixes, 256 exponents, 1057 short strings) plus random strings against a hand-written SI table",
         text="The finite parts of the domain are enumerated completely on every run; random decorated / Unicode strings probe from_abbr beyond length 2.",
